@@ -1,6 +1,7 @@
 package main
 
 import (
+	"go/constant"
 	"fmt"
 	"go/ast"
 	"go/token"
@@ -540,6 +541,44 @@ func runC31(p *Prog, r *Result) {
 							}
 							walk(blk, idx+1)
 							ok2 = !startFirst
+						}
+					}
+					// the delay must be positive: a zero WaitDelay means "wait without limit", i.e. no escalation to a kill
+					if ok2 {
+						for _, b2 := range fg.Blocks {
+							for _, m := range b2.Nodes {
+								if !isDelay(m) {
+									continue
+								}
+								as := m.(*ast.AssignStmt)
+								for i, l2 := range as.Lhs {
+									s2, ok := ast.Unparen(l2).(*ast.SelectorExpr)
+									if !ok || s2.Sel.Name != "WaitDelay" || i >= len(as.Rhs) {
+										continue
+									}
+									rhs := ast.Unparen(as.Rhs[i])
+									positive := false
+									if tv, ok := info.Types[rhs]; ok && tv.Value != nil {
+										positive = constant.Sign(tv.Value) > 0
+									} else if id, ok := rhs.(*ast.Ident); ok {
+										o := info.ObjectOf(id)
+										positive = underEdges(fg, b2, func(e *FEdge) bool {
+											be, ok := ast.Unparen(e.Cond).(*ast.BinaryExpr)
+											if !ok || !e.Pol {
+												return false
+											}
+											bid, ok := ast.Unparen(be.X).(*ast.Ident)
+											if !ok || info.ObjectOf(bid) != o {
+												return false
+											}
+											tv, ok := info.Types[be.Y]
+											return ok && tv.Value != nil && be.Op == token.GTR && constant.Sign(tv.Value) >= 0
+										})
+									}
+									r.Check(positive, "R31c", fb.key+"#"+recv+".WaitDelay is positive", as.Pos(), "a positive constant, or a value tested `> 0` on the way",
+										"the WaitDelay that goes with the Cancel override may be zero, which means no limit: a process that ignores the interrupt is never killed and Run waits for it")
+								}
+							}
 						}
 					}
 					r.Check(ok2, "R31c", fb.key+"#"+recv+".Cancel override", x.Pos(), "WaitDelay is assigned on every path before the command starts",
@@ -1199,6 +1238,8 @@ func isParamOfEnclosing(info *types.Info, fb struct {
 }
 
 var c31Controls = []Control{
+	{Name: "zero-kill-timeout-never-kills", Rule: "R31c", WantKey: "WaitDelay is positive", File: "interp/handler.go",
+		Mutate: ctlReplaceAnywhere("if killTimeout > 0 && runtime.GOOS != \"windows\" {", "if killTimeout >= 0 && runtime.GOOS != \"windows\" {")},
 	{Name: "run-returns-nil-when-cancelled", Rule: "R31i", WantKey: "Run#after stmts", File: "interp/api.go",
 		Mutate: ctlReplaceAnywhere("if err := ctx.Err(); err != nil && r.exit.ok() {\n\t\tr.exit.fatal(err)\n\t}", "")},
 	{Name: "test-t-calls-fd-on-stdin", Rule: "R31h", WantKey: "f.Fd()", File: "interp/test.go",
